@@ -17,7 +17,12 @@ Two files are written (only when their text changes, so that lake does not rebui
 
 What is trusted here (and validated by execution on every check run, see props/C18.py):
   * Python's + - * / ** and unary - on numbers are the field operations; `x ** n` (n a literal
-    natural number) is the n-th power; int / float literals denote their exact rational value;
+    natural number) is the n-th power; int / float literals denote their exact rational value in
+    the Lean definitions - but a FLOAT literal stays a distinct node: Python rounds every exact
+    operand it meets, so for each result entry the translator derives (`pytypes`) whether Python
+    returns a float for exact (int / Fraction) arguments, emits it as `<fn>.floats`, lists the
+    argument-dependent float entries of exact functions as `float_contaminated`, and the check
+    compares the prediction with the types the real functions return (`calle` lines);
   * the truth value of a number is `x ≠ 0`; < <= > >= == != are the order / equality relations;
   * `/` by zero raises ZeroDivisionError (recorded per path as the `status` of a call; in the
     generic definitions `x / 0 = 0` as in any Lean field — theorems carry explicit hypotheses);
